@@ -226,7 +226,33 @@ inline wire::Bytes genPayload(Kind k, size_t L, Rng& r)
             return f.serialize();
         }
         default:
-            return r.bytes(L);
+        {
+            // content classes: random, all zero (looks like padding), all ones, a text-like run, bytes that look like a CMP
+            // message header / frame header embedded in the data
+            unsigned w = static_cast<unsigned>(r.below(20));
+            if (w < 13)
+                return r.bytes(L);
+            if (w < 15)
+                return wire::Bytes(L, 0x00);
+            if (w < 16)
+                return wire::Bytes(L, 0xFF);
+            if (w < 17)
+            {
+                wire::Bytes b(L);
+                for (size_t i = 0; i < L; ++i)
+                    b[i] = static_cast<uint8_t>('a' + i % 26);
+                return b;
+            }
+            wire::Bytes b = r.bytes(L);
+            for (size_t off = r.below(24); off + 16 <= L; off += 16 + r.below(40))
+            {
+                // ts, id word, flags (random segment bits), payload type, plausible length
+                b[off + 12] = static_cast<uint8_t>(r.pick<uint8_t>({0x00, 0x04, 0x08, 0x0C, 0x40}));
+                b[off + 13] = static_cast<uint8_t>(r.range(1, 8));
+                wire::set16(b.data() + off + 14, static_cast<uint16_t>(r.below(64)));
+            }
+            return b;
+        }
     }
 }
 
